@@ -90,7 +90,19 @@ where
                             let res = std::panic::catch_unwind(std::panic::AssertUnwindSafe(|| f(idx, &mut r, &mut t)));
                             if let Err(e) = res {
                                 let msg = safe::panic_msg(&e);
-                                t.harness_error(format!("monitor panicked on case {idx} (seed {}): {msg}", ctx.seed));
+                                let at = LAST_PANIC_AT.with(|c| c.borrow().clone());
+                                if at.starts_with(&repo_src_prefix()) {
+                                    // a panic raised inside the library under test that a monitor did not catch itself:
+                                    // the library must return a result or a typed error (C16), so this is an observation
+                                    // about the code, not a harness failure
+                                    t.violation(
+                                        "library_panicked_in_unguarded_call",
+                                        format!("the library panicked at {at} while the monitor processed case {idx} (seed {}): {msg}", ctx.seed),
+                                        || json!({"regenerate": {"seed": ctx.seed, "case_index": idx, "tier": ctx.tier_name()}, "panic_at": at, "message": msg}),
+                                    );
+                                } else {
+                                    t.harness_error(format!("monitor panicked on case {idx} (seed {}) at {at}: {msg}", ctx.seed));
+                                }
                             }
                             t.cases += 1;
                             idx += threads;
@@ -106,6 +118,16 @@ where
         merged.merge(t);
     }
     merged
+}
+
+thread_local! {
+    /// source location of the last panic raised on this thread (set by the panic hook)
+    pub static LAST_PANIC_AT: std::cell::RefCell<String> = std::cell::RefCell::new(String::new());
+}
+
+/// where the sources of the library under test live (panic locations of a path dependency are absolute)
+fn repo_src_prefix() -> String {
+    format!("{}/src/", std::env::var("VERIF_REPO").unwrap_or_else(|_| "/repo".into()).trim_end_matches('/'))
 }
 
 pub struct Report {
@@ -185,7 +207,10 @@ fn main() {
     }
     ctx.findings = findings::load(&ctx.verif.join("known_findings.txt"));
     // library panics are expected observations for some monitors: keep stderr quiet
-    std::panic::set_hook(Box::new(|_| {}));
+    std::panic::set_hook(Box::new(|info| {
+        let at = info.location().map(|l| format!("{}:{}", l.file(), l.line())).unwrap_or_default();
+        LAST_PANIC_AT.with(|c| *c.borrow_mut() = at);
+    }));
 
     if positional.first().map(|s| s.as_str()) == Some("replay") {
         let path = positional.get(1).cloned().unwrap_or_else(|| usage());
@@ -352,6 +377,14 @@ fn replay(ctx: &mut Ctx, path: &str) -> i32 {
         ctx.tier = Tier::Thorough;
     }
     let t0 = Instant::now();
+    if doc["witness"]["regenerate"].is_object() {
+        // the witness names (seed, case index) of a generated case: the whole workload of that seed is re-run
+        ctx.replaying = false;
+        return match mon::run(&prop, ctx) {
+            Some(report) => finish(ctx, &prop, report, t0.elapsed().as_secs_f64()),
+            None => 2,
+        };
+    }
     match mon::replay(&prop, ctx, &monitor, &doc["witness"]) {
         Some(report) => {
             let n = report.tally.violation_count;
